@@ -124,11 +124,17 @@ let run_sort (args : (string * string) list) : string =
        add "model" (ok (List.map int_of_n mb = ibounds && List.map keys mparts = List.map keys iparts))
      | _ -> add "model" "FAIL(model-not-done)");
     (* batch files *)
-    let files = List.map (fun l ->
+    let raw_files = lists_of_string (get args "batches") in
+    (* a single one-element entry is the harness's marker for "temporary files exist but do
+       not follow the naming scheme the inspection knows": the layout of the sorter's
+       temporary files is an internal detail, so the batch-file aspects are then skipped *)
+    let unknown_layout = (match raw_files with [[_]] -> true | _ -> false) in
+    if unknown_layout then add "i_batchlayout" "unknown";
+    let files = if unknown_layout then [] else List.map (fun l ->
       match l with
       | w :: pp :: idx :: rest -> ((w, pp, idx), triples_of_ints rest)
-      | _ -> failwith "batches: short entry") (lists_of_string (get args "batches")) in
-    if get_int_def args "vx" 1 = 1 then begin
+      | _ -> failwith "batches: short entry") raw_files in
+    if get_int_def args "vx" 1 = 1 && not unknown_layout then begin
       (* every file holds at most one buffer, of sources of its partition *)
       let in_range pp ((s, _), _) =
         let lo = List.nth mbounds pp and hi = List.nth mbounds (pp + 1) in
